@@ -1984,6 +1984,14 @@ pub mod verif_hooks {
         id.0
     }
 
+    pub fn dfa_id_from_raw(id: usize) -> DFAId {
+        DFAId(id)
+    }
+
+    pub fn inp_id_from_raw(id: u32) -> InpId {
+        InpId(id)
+    }
+
     pub fn num_inputs(dfa: &DFA) -> usize {
         dfa.inputs.store.len()
     }
